@@ -118,8 +118,15 @@ SPEC = dict(
          "misbehaving file objects). For every call the same data go through the core Rust library in the same "
          "process (module lmcore); the extracted Coq glue model is run with those core results plugged in for its "
          "core operations, and its outcome is compared with what Python returned, bit for bit (IEEE bit patterns, "
-         "NaN canonicalised). PROPFAIL (check_C17, proved sound): value differs from the core's, value where an "
-         "exception is due or conversely, PanicException / interpreter crash or hang where the core does not panic. "
+         "NaN canonicalised). PROPFAIL is decided by extracted, proved checkers: check_C17 (C17.check_C17_sound) on every "
+         "single outcome (value differs from the core's, value where an exception is due or conversely, PanicException where "
+         "the core does not panic); check_hits (check_hits_sound / check_hits_complete: true exactly when the hits a scanner "
+         "handed out over its life are a permutation of the core's; a changed order is a DIFF only) on scanner hits; check_items "
+         "(check_items_sound: as many items as the core reader prescribes, check_C17 on each) on the items of a continued "
+         "iteration. Hand-written and therefore in the trusted base: a crash / hang / timeout of the child interpreter is "
+         "always a PROPFAIL; the thread op `mt` (the worker compares concurrent with sequential results and reports `mt:ok`); "
+         "the rendering of values to canonical text (render_result / render_obj / render_motif) that the checkers compare with "
+         "String.equal; the window of a continued iteration (cut_items: first non-value item + 3). "
          "DIFF: kind of exception differs from the model, missing oracle entry, a core result that depends on the "
          "history of the sequence object. Every case runs in a child interpreter, a crash is an observation. "
          "Round 3: every history is also run through the lazy reading of the scanners (run_call_lazy: a scanner follows the live "
@@ -133,14 +140,30 @@ SPEC = dict(
          "generator objects; CountMatrix columns without len(); paths as str, bytes, pathlib.Path; EncodedSequence constructor and "
          "methods, __eq__ / str / copy of the matrix classes, score_distribution (cache) - ops es et cp eq sr sd fo ll ln mt. A PROPFAIL "
          "detail names the core operation that panicked (core-call=dist_sf|dist_pvalue|dist_score|tfm_pvalue|...). Corpus: "
-         "corpus/C17/regress.txt (+threads, live-scanner, generators-paths, continued-load-gl, continued-load-len), known_f28.txt "
-         "(must pass since /repo a1b1f91). 60 theorems in C17.v. "
+         "corpus/C17/regress.txt (+threads, live-scanner, generators-paths, continued-load-gl, continued-load-len, "
+         "float-of-huge-int), known_f28.txt (must pass since /repo a1b1f91). "
+         "Wave 3: float(int) at the edge of binary64 (2^1024 - 2^970 is the first int CPython refuses) is generated for pvalue / "
+         "score / threshold arguments (3 %) and is corpus case `float-of-huge-int`; scan block sizes 2^64-1, 2^63, 2^64-256, 2^32 "
+         "are generated (4 %). 68 theorems in C17.v (+ 13 of coq/e2e/E2EPyCore.v as composed obligations of the thorough tier: "
+         "the core record instantiated with the C04 / C01 / C02 models). "
          "Non-trivial: distinct history in which some object receives at least two calls.",
     trusted_base=[
-        "Coq 8.16.1 kernel (coqc); vm_compute only in the Example lemmas; no native_compute",
-        "extraction: ExtrOcamlBasic only (nat, Z, positive, list, option stay extracted inductives; Flocq binary32/64 "
+        "Coq 8.16.1 kernel (coqc); vm_compute only in closed computations: the Example lemmas of C17.v, the tie theorem "
+        "py_exception_sites_tied (forallb over the generated table), the 13 witnesses of py_no_panic_needs_every_guard_refuted, "
+        "PyGlueProofs.base_two_valid, and the Examples of coq/e2e/E2EPyCore.v (pycore_example_runs, "
+        "pycore_readme_matches_python, pycore_state_typed_satisfiable); no native_compute",
+        "extraction: ExtrOcamlBasic only (its Extract Inductive directives for bool, option, list, prod, unit, sumbool, sumor); "
+        "no other Extract Inductive, no Extract Constant (nat, Z, positive stay extracted inductives; Flocq binary32/64 "
         "for the f64->f32 conversions); OCaml 4.13.1 with zarith for decimal <-> Z",
-        "hand-written OCaml driver ocaml/pyglue/driver.ml (parsing, rendering of values, oracle table lookup)",
+        "hand-written OCaml driver ocaml/pyglue/driver.ml (parsing, rendering of values, oracle table lookup). It decides by hand "
+        "(not through an extracted checker): `abort=` token (interpreter died / hung / timed out during the history) => PROPFAIL; "
+        "the `mt` op (PanicException in a thread or the worker's `concurrent != sequential` => PROPFAIL, `mt:ok` => OK; "
+        "py_threads_independent is connected to no observation); the rendering of values (render_result / render_obj / "
+        "render_motif) and the splitting of a load result into motifs and end-of-iteration outcome before check_C17 "
+        "String.equal; cut_items (window of a continued iteration); parsing of hits to Z pairs before check_hits (an unparsable "
+        "hit is a mismatch); the wording of every detail. All other PROPFAIL verdicts (value / exception / panic mismatch, "
+        "hit-set-mismatch, load-items-mismatch, item<k>, load-end-mismatch) are the extracted check_C17 / check_hits / check_items "
+        "(coq/pyglue/PyGlueCheck.v)",
         "translator translate/pyglue_sig.py (regular expressions over #[pyo3(signature)] attributes, the string arms of "
         "`match method` / `match format`, Alphabet::as_str, and every `Py<Class>::new_err(\"message\")` site of lib.rs / io.rs / "
         "pyfile.rs) -> coq/pyglue/GenPySig.v",
@@ -149,30 +172,67 @@ SPEC = dict(
         "harness crate /verif/pyharness (lmpy, lmcore: thin wrappers calling the public core API, catch_unwind) and "
         "the Python driver scripts pyharness/py/c17_*.py (history interpreter, oracle recording, supervisor)",
         "modelled, not verified: lightmotif-py/lightmotif/{lib.rs,io.rs,pyfile.rs} (Gallina model of the glue, tied by "
-        "the correspondence run); the core library is a parameter of the model (record `core`), its own properties "
-        "are C01-C04, C07, C09-C14",
+        "the correspondence run). The core library is a parameter of the model (record `core`); in the differential run it is "
+        "the Rust core itself (lmcore, same process). In Coq the fields c_stripe / c_configure / c_score / c_scan are "
+        "instantiated with the models of C04 / C01 / C02 (coq/e2e/E2EPyCoreDefs.v core_of_models: 32 columns, AVX2 arm of the "
+        "scanner, generic scoring pipeline, encoder by specification `symbol = index in Alphabet::as_str`, CPanic outside the "
+        "models' domain); that instance is NOT run against the implementation on every run (one captured example: "
+        "pycore_readme_matches_python, lightmotif-py of /repo a1b1f91; otherwise its parts are tied by the checks of C01 / C02 / "
+        "C04). All other fields (C07 threshold / max / argmax, C09 / C10 counts -> weights -> log-odds, reverse complement, "
+        "max_score, C11 score distribution, C12 / C13 TFM-PVALUE, C14 readers) are not instantiated: the link from what Python "
+        "returns to THOSE definitions is two test chains (Python = Rust core here; Rust core = Coq model in the owning "
+        "property's check), not a Coq statement",
     ],
     assumptions=[
         "PARTIAL: the theorems are about the glue model; CPython / PyO3 run-time behaviour is trusted",
-        "py_calculate_history assumes the core facts: configure always succeeds, keeps the text, makes the look-ahead "
-        "rows sufficient (C04), and score / scan results depend only on the text once they are (C01/C02); the driver "
-        "re-validates this on every calculate (fresh versus reused sequence) and reports a DIFF otherwise",
-        "py_panic_only_from_core assumes core_total (the core never panics and its infallible operations return a "
-        "value); a PanicException is always reported; where lmcore observes a core panic on the same data the "
-        "detail says `core-also-panics core-call=<operation>` (what is left of known finding F25: pvalue(score, 'tfmpvalue') with a score "
-        "so large that score/granularity leaves the i64 range, e.g. 1e30 - the core TfmPvalue overflows on the same data, tfm's "
-        "known finding F35 huge-score; F26, F27 and F28 are repaired: /repo df3a2dd, e7689c9, a1b1f91)",
+        "PARTIAL, precisely: (1) CPython / PyO3 trusted; (2) the values returned are shown IN COQ to be the C01 / C02 definitions "
+        "for calculate (pycore_calculate_is_C01: unstripe of the returned StripedScores = score_def of every position; premise: "
+        "non-empty matrix whose rows have as many cells as the alphabet of the sequence) and scan (pycore_scan_is_C02: hits = "
+        "exactly the positions with score_def >= threshold, each once; premises: the same + no NaN + block size > 0 + C02's "
+        "numeric hypothesis: finite non-wildcard cells and C08's main clause - E2E.e2e_wc is an executable sufficient condition); "
+        "for max / argmax / threshold (C07), p-values and scores (C11, C12 / C13), counts / weights / log-odds (C09), reverse "
+        "complement (C10), loaded motifs (C14) the theorems py_<entry>_eq_core only say that the glue hands the converted "
+        "arguments to the core operation and its result back - they pin the model's definition; (3) "
+        "pycore_call_no_panic_partial leaves `rest_total` (guarded totality of the 20 operations not instantiated, named field by "
+        "field) and `st_typed` as hypotheses",
+        "py_calculate_history / py_history_depends_on_text_only are stated over five hypotheses on the core (configure total, "
+        "keeps the text, makes the look-ahead rows sufficient; score and scan results are functions of the text once they are); "
+        "these are PROVED for the C04 / C01 / C02 models in coq/e2e/E2EPyCore.v (pycore_conf_total, _conf_text, _conf_ok, "
+        "_score_text, _scan_text; no numeric hypothesis) and the theorem is restated without them "
+        "(pycore_history_depends_on_text_only); the driver also re-validates it on every calculate (fresh versus reused "
+        "sequence, DIFF)",
+        "py_panic_only_from_core assumes core_guarded sm_ty sq_ty wrap_ok (it replaces the unsatisfiable core_total of round 3, "
+        "kept only as the legacy corollary py_panic_only_from_core_total): every core operation returns a value UNDER THE "
+        "PRECONDITION THE GLUE ESTABLISHES before calling it (score: non-empty matrix, sequence configured for it, same alphabet; "
+        "scan: additionally no NaN cell and block size > 0; max_score: no NaN; score distribution / `meme` p-values: "
+        "ensure_ordered(true) and a non-NaN score / a p-value in [0, 1]; TFM-PVALUE: ensure_finite and a finite score / a p-value "
+        "in [0, 1]; to_scoring: a valid base) - nothing outside - and that the call is made in a state whose alphabet labels agree "
+        "with the values (st_typed; NOT proved to be an invariant of histories: it needs typing facts of every core "
+        "constructor; py_history_no_panic covers all histories only for cores whose promise does not depend on alphabets). "
+        "py_no_panic_needs_every_guard_refuted: with any one guard deleted from the model (13 witnesses) a core satisfying "
+        "core_guarded makes the call panic; py_strict_core_is_guarded: a core that panics exactly outside the preconditions "
+        "satisfies core_guarded. ON THE UNCHANGED TREE cg_tfm_pvalue is false in overflow-checking builds: pvalue(1e30, "
+        "'tfmpvalue') panics in the core (what is left of known finding F25: score/granularity leaves the i64 range; tfm's known "
+        "finding F35 huge-score) - a PanicException is always reported; where lmcore observes a core panic on the same data the "
+        "detail says `core-also-panics core-call=<operation>`. F26, F27, F28 are repaired (/repo df3a2dd, e7689c9, a1b1f91)",
         "dictionaries have distinct keys (Python); column objects with inconsistent __len__/__iter__ are not generated",
         "file objects: read(n) returning at most n bytes is equivalent to the concatenated bytes (C14 chunk independence)",
-        "py_scanner_lazy_eq_eager assumes scan_stable (a successful core scan is not changed by further configure() calls on the "
-        "sequence: C02 + C04); the driver reports a DIFF when the two readings differ on observed data",
+        "py_scanner_lazy_eq_eager is stated over scan_stable (a successful core scan is not changed by further configure() calls "
+        "on the sequence); PROVED for the C02 / C04 models (pycore_scan_stable, pycore_scanner_lazy_eq_eager); the driver reports "
+        "a DIFF when the two readings differ on observed data",
+        "py_scanner_chunks is a lemma about the eager list model (firstn / skipn); the bridge to the lazy Rust scanner is "
+        "py_scanner_lazy_eq_eager",
+        "extract_f64 of an int follows PyLong_AsDouble: OverflowError from 2^1024 - 2^970 on (ex_extract_f64_bound; corpus "
+        "float-of-huge-int)",
         "py_threads_independent is about atomic calls (GIL); calculate / threshold / max / argmax / create release the GIL while they "
         "hold their borrows - the `mt` cases check that this is not observable (the `mt` verdict is decided by the worker: concurrent "
         "== sequential; `mt` is not an op of the model)",
         "the lazy reading treats the core scanner as restartable (its hits in order are a function of matrix, sequence rows, threshold "
         "and block size; the hits handed out are a prefix)",
-        "py_items_no_panic assumes readers_total (no core reader panics: C15) and is about the two producers of iteration results "
-        "(glue_load, lazy_take)",
+        "py_items_no_panic assumes core_guarded and readers_total (no core reader panics: C15) and is about the two producers of "
+        "iteration results (glue_load, lazy_take)",
+        "not modelled: the Motif / protein getters and the Hit fields (`#[pyo3(get)]` fields); str(EncodedSequence(text)) = text "
+        "is py_encoded_str_roundtrip",
     ],
 )
 
